@@ -35,6 +35,10 @@ type Engine struct {
 	notDecided    map[string][]string
 	lemmaUsed     map[string]bool
 	repDone       map[string]bool
+	drivers       []replayDriver
+	replayCache   map[string]*ReplayResult
+	replayRuns    int
+	noReplay      bool
 }
 
 func newEngine(repo, verif string) *Engine {
